@@ -201,8 +201,22 @@ def move_staticmethod_static_scope(source: str, preserve: Collection[str]) -> st
         if classdef.bases:
             continue
 
+        # The class body (assignments, default values, decorators) can read a method by its name.
+        # The bodies of the methods cannot, the scope of a class is not visible from there.
+        names_read_in_class = set()
+        for node in classdef.body:
+            if isinstance(node, (ast.FunctionDef, ast.AsyncFunctionDef)):
+                parts = [*node.decorator_list, node.args, node.returns]
+            else:
+                parts = [node]
+            for part in filter(None, parts):
+                names_read_in_class.update(
+                    name.id for name in core.walk(part, ast.Name(ctx=ast.Load))
+                )
         for funcdef in parsing.iter_funcdefs(classdef):
             if funcdef.name in attributes_to_preserve or funcdef.name in preserve:
+                continue
+            if funcdef.name in names_read_in_class:
                 continue
             if f"{classdef.name}.{funcdef.name}" in preserve:
                 continue
